@@ -201,7 +201,7 @@ func shJudge(c *mon.Ctx, in *shCase, legacy bool) {
 		}
 	}
 	c.Eval(1)
-	tx := s.Build()
+	tx := s.BuildShared() // scripts packed back to back in one arena: a write behind any of them shows in the snapshot
 	flag := sighash.Flag(in.HashType)
 	var snap0 []byte
 	if !c.Try("bt.(*Tx).ExtendedBytes", func() { snap0 = shSnapshot(tx) }) {
